@@ -13,6 +13,18 @@ CHECKS = {
  "C01": dict(level=MC, design="§4 C01", technique="bounded-exhaustive enumeration of Fun programs x inputs; every program compiled by the real pipeline, assembled (GNU as), linked with the repository's C driver, executed natively and compared with the reference machine R-FUN",
     text="Every member of the bounded Fun program families x argument tuples is executed as a real x86-64 process; stdout bytes and exit status must equal what R-FUN prescribes. The twin run on the emulator provides the state/transition counts and validates the emulator against the CPU on every case.",
     note="GNU as (after a syntax-only transliteration) stands in for yasm; R-FUN written from the property's statement of the source semantics and validated on the repository's examples"),
+ "C02": dict(level=MC, design="§4 C02", technique="bounded-exhaustive enumeration of Fun programs (incl. the complete shadowing product) x inputs; reference machine R-FUN vs Core abstract machine on the real translation output, every execution compared",
+    text="Every program of the bounded families, in particular FUN-SHADOW (binder kind x inner name x outer name x continuation kind x label/covariable shadowing) and the generated-name lookalikes, is translated by the real compile_prog and executed on the Core machine with lexical scoping; output and result must equal R-FUN's; scoping/typing and name uniqueness of the output are checked statically.",
+    note="R-FUN/R-CORE independent of the repository; both agree with compiled code on the repository's examples"),
+ "C03": dict(level=MC, design="§4 C03", technique="bounded-exhaustive enumeration of Core programs reachable from Fun (effects in every argument position); Core machine before vs after the real focusing, every execution compared, binder uniqueness on every path",
+    text="R-CORE on the translation output vs R-CORE on the focused program (embedded back into Core): identical print sequence and result on every program x input of the families incl. FUN-EFFECT (print/goto/exit in operator, call, constructor, destructor, condition and codata arguments); binder ids along every path distinct, non-zero and <= max_id.",
+    note="R-CORE's dynamic focusing is the oracle for evaluation order"),
+ "C04": dict(level=MC, design="§4 C04", technique="bounded-exhaustive enumeration of focused Core programs; Core machine vs AxCut machine on the real shrinking output, every execution compared; lifted signatures checked",
+    text="R-CORE(focused) vs the by-name AxCut machine on shrink_prog's output on every program x input; lifted definitions receive exactly their free variables; output well-scoped with unique binders per path.",
+    note="as C03"),
+ "C05": dict(level=MC, design="§4 C05", technique="complete enumeration of non-linear AxCut statements over <= 4 variables + all pipeline programs; ordered-linear judgment on every statement of every path; by-name vs positional machine, every execution compared",
+    text="The complete input space of the linearizer for small contexts (kinds x statement kinds x argument tuples with repetition x used-afterwards subsets x captured subsets) and every shrunk program of the Fun families are linearized by the real code; TC-AX (DESIGN App. A) must accept every statement of the result and the positional machine must reproduce the by-name machine's observations.",
+    note="Appendix A judgment is read off the backends"),
  "C06": dict(level=MC, design="§4 C06/C07/C08", technique="bounded-exhaustive enumeration of linear AxCut programs; every execution of the real x86-64 output on a text-level emulator checked against a reference machine",
     text="Every member of the bounded program space (k = 0..22 variables x statement kinds x operand placements x literal boundary set x object sizes 0..8) is compiled by the real code generator and executed to completion on an emulator of the printed text; print sequence and result are compared with the positional AxCut machine. States are statement boundaries; exhaustive within the stated bounds.",
     note="x86-64 emulator for the ~45 instruction forms the backend prints (cross-validated against native execution by C01); reference = positional AxCut machine (DESIGN App. A)"),
@@ -31,6 +43,9 @@ CHECKS = {
  "C11": dict(level=MC, design="§4 C11", technique="complete enumeration of substitution configurations (all maps m,n<=5 x kinds x offsets x 3 backends); each compiled by the real code generator and executed; post-state compared with the simultaneous-assignment model",
     text="Every configuration in the stated finite space is executed: simultaneous assignment of both temporaries, count arithmetic, exactly-once release of dropped last references, and a frame condition on everything else. Thorough tier completes n,m <= 5 (exhaustive: true).",
     note="emulators as C06-C08; the pre-state is constructed by the harness on top of the real post-prologue machine state"),
+ "C12": dict(level=EX, design="§4 C12", technique="bounded-exhaustive enumeration of accepted programs; independent type checkers for Core and AxCut on every stage output; panics caught per stage",
+    text="Every program of the Fun families passes through all stages and the three code generators under catch_unwind; TC-CORE/TC-AX check each intermediate program with the judgments of the property. The RV64 print panic is a recorded known finding.",
+    note="checkers use only the annotations the programs carry and the declared signatures"),
  "C13": dict(level=MC, design="§4 C13", technique="bounded-exhaustive enumeration of programs with prints at 0..22 live variables; every emulated execution under a calling-convention model with definedness tracking",
     text="All executions of the linear AxCut families on x86-64 and AArch64 run under the external-call model: alignment at every call (every SP access on AArch64), caller-saved registers / flags / LR / stack below SP become undefined at each print call and may not reach a branch, address, jump target, print argument or the result; callee-saved registers and SP compared with entry sentinels at return.",
     note="register classes from the System V x86-64 and AAPCS64 documents; print runtime modelled as an arbitrary conforming callee"),
